@@ -185,6 +185,23 @@ enum Ev {
     Unit,
     F64,
     None,
+    BorrowedStr,
+    BorrowedBytes,
+    Char,
+    Seq,
+    U128,
+}
+
+/// An empty sequence (for `visit_seq`).
+struct EmptySeq;
+impl<'de> serde::de::SeqAccess<'de> for EmptySeq {
+    type Error = MockErr;
+    fn next_element_seed<T: serde::de::DeserializeSeed<'de>>(
+        &mut self,
+        _seed: T,
+    ) -> Result<Option<T::Value>, MockErr> {
+        Ok(None)
+    }
 }
 
 struct MockDe<'a> {
@@ -195,11 +212,16 @@ struct MockDe<'a> {
     entry: &'a mut u8,
 }
 
-impl<'de, 'a> MockDe<'a> {
+impl<'de, 'a: 'de> MockDe<'a> {
     fn drive<V: Visitor<'de>>(self, v: V) -> Result<V::Value, MockErr> {
         match self.ev {
             Ev::Str => v.visit_str(unsafe { core::str::from_utf8_unchecked(self.data) }),
             Ev::Bytes => v.visit_bytes(self.data),
+            Ev::BorrowedStr => v.visit_borrowed_str(unsafe { core::str::from_utf8_unchecked(self.data) }),
+            Ev::BorrowedBytes => v.visit_borrowed_bytes(self.data),
+            Ev::Char => v.visit_char('T'),
+            Ev::Seq => v.visit_seq(EmptySeq),
+            Ev::U128 => v.visit_u128(1u128 << 100),
             Ev::U64 => v.visit_u64(42),
             Ev::I64 => v.visit_i64(-1),
             Ev::Bool => v.visit_bool(true),
@@ -210,7 +232,7 @@ impl<'de, 'a> MockDe<'a> {
     }
 }
 
-impl<'de, 'a> Deserializer<'de> for MockDe<'a> {
+impl<'de, 'a: 'de> Deserializer<'de> for MockDe<'a> {
     type Error = MockErr;
     fn deserialize_any<V: Visitor<'de>>(self, v: V) -> Result<V::Value, MockErr> {
         *self.entry = 0;
@@ -243,7 +265,7 @@ impl<'de, 'a> Deserializer<'de> for MockDe<'a> {
 
 fn sym_ev() -> Ev {
     let c: u8 = kani::any();
-    kani::assume(c < 8);
+    kani::assume(c < 13);
     match c {
         0 => Ev::Str,
         1 => Ev::Bytes,
@@ -252,7 +274,12 @@ fn sym_ev() -> Ev {
         4 => Ev::Bool,
         5 => Ev::Unit,
         6 => Ev::F64,
-        _ => Ev::None,
+        7 => Ev::None,
+        8 => Ev::BorrowedStr,
+        9 => Ev::BorrowedBytes,
+        10 => Ev::Char,
+        11 => Ev::Seq,
+        _ => Ev::U128,
     }
 }
 
@@ -264,7 +291,7 @@ macro_rules! c16_de {
             let data: [u8; $len] = kani::any();
             let human: bool = kani::any();
             let ev = sym_ev();
-            if ev == Ev::Str {
+            if ev == Ev::Str || ev == Ev::BorrowedStr {
                 // a &str is UTF-8: restrict to ASCII content
                 let mut i = 0;
                 while i < $len {
@@ -284,12 +311,14 @@ macro_rules! c16_de {
             });
             let expect: Option<$ty> = if human {
                 match ev {
-                    Ev::Str | Ev::Bytes => <$ty>::from_str_bytes(&data, None).ok(),
+                    Ev::Str | Ev::Bytes | Ev::BorrowedStr | Ev::BorrowedBytes => {
+                        <$ty>::from_str_bytes(&data, None).ok()
+                    }
                     _ => None,
                 }
             } else {
                 match ev {
-                    Ev::Bytes => <$ty>::try_from(&data[..]).ok(),
+                    Ev::Bytes | Ev::BorrowedBytes => <$ty>::try_from(&data[..]).ok(),
                     _ => None,
                 }
             };
@@ -303,12 +332,14 @@ macro_rules! c16_de {
             kani::cover!((r.is_ok() && human) || !human_ok_possible);
             kani::cover!((r.is_ok() && !human) || !bin_ok_possible);
             kani::cover!(r.is_err() && ev == Ev::Bytes && !human || bin_ok_possible && !cfg!(feature = "strict-parser"));
+            kani::cover!(ev == Ev::Seq && r.is_err());
+            kani::cover!(ev == Ev::BorrowedBytes);
             kani::cover!(r.is_err());
         }
     };
 }
 // event payload lengths are concrete; content symbolic
-//@ h=c16_de_short_32 props=C16 cfgs=K8,K8s,K8b tier=q t=1800 | funcs: <Short as Deserialize>::deserialize, FuzzyHashStringVisitor::{visit_str, visit_bytes}, FuzzyHashBytesVisitor::visit_bytes, default Visitor methods | bound: payload of 32 bytes (any content) x 8 visitor events x human_readable in {true,false}: Ok iff the matching parser accepts, same value, never a panic | stubs: mock Deserializer, message-ignoring error type | assume: str events carry ASCII
+//@ h=c16_de_short_32 props=C16 cfgs=K8,K8s,K8b tier=q t=1800 | funcs: <Short as Deserialize>::deserialize, FuzzyHashStringVisitor::{visit_str, visit_bytes}, FuzzyHashBytesVisitor::visit_bytes, default Visitor methods | bound: payload of 32 bytes (any content) x 13 visitor events (str, bytes, borrowed str/bytes, u64, i64, u128, bool, unit, f64, none, char, empty seq) x human_readable in {true,false}: Ok iff the matching parser accepts, same value, never a panic | stubs: mock Deserializer, message-ignoring error type | assume: str events carry ASCII
 c16_de!(c16_de_short_32, Short, 15, 32, 32, 36);
 //@ h=c16_de_short_30 props=C16 cfgs=K8,K8s tier=q t=1800 | funcs: <Short as Deserialize>::deserialize | bound: payload of 30 bytes x events x human_readable | stubs: mock Deserializer | assume: str events carry ASCII
 c16_de!(c16_de_short_30, Short, 15, 32, 30, 36);
